@@ -68,6 +68,8 @@ def main(tier):
             c["a_q"] = True
         if rng.random() < 0.15:
             c["layout"] = "expanded"
+        if rng.random() < 0.3:
+            c["mag"] = rng.choice([0.05, 0.01, 20.0])  # small / large operand magnitudes: the product of the two scales leaves the float16 normal range
         cases.append(c)
     # directed: float8 x float8 with float16 scales accumulates in float16 (F13); bf16 x int8 with in%16 != 0 (F14)
     cases.append({"id": len(cases), "seed": 1, "op": "linear", "dtype": "float16", "act": "qfloat8_e4m3fn", "wq": "qfloat8_e4m3fn", "lead": [2], "in": 512, "out": 4, "bias": False, "ones": 12.0, "directed": "f16 accumulation"})
@@ -81,6 +83,9 @@ def main(tier):
     # directed: broadcast (expanded, stride-0) quantized activations on the integer GEMM routes
     cases.append({"id": len(cases), "seed": 11, "op": "linear", "dtype": "float32", "act": "qint8", "wq": "qint8", "lead": [24], "in": 32, "out": 16, "bias": False, "layout": "expanded", "exact": False})
     cases.append({"id": len(cases), "seed": 12, "op": "mm", "dtype": "float32", "n": 24, "m": 32, "p": 16, "batch": 2, "aq": "qint8", "a_q": True, "b_q": True, "layout": "expanded"})
+    # directed: float16 operands of small magnitude on the integer GEMM route of torch.mm (rows > 16, every size a multiple of 8)
+    cases.append({"id": len(cases), "seed": 13, "op": "mm", "dtype": "float16", "n": 24, "m": 64, "p": 32, "batch": 2, "aq": "qint8", "a_q": True, "b_q": True, "mag": 0.05})
+    cases.append({"id": len(cases), "seed": 14, "op": "mm", "dtype": "float16", "n": 64, "m": 256, "p": 128, "batch": 2, "aq": "qint8", "a_q": True, "b_q": True, "mag": 0.02})
     cases.append({"id": len(cases), "seed": 9, "op": "linear", "dtype": "float32", "act": "float", "wq": "qint8", "lead": [], "in": 16, "out": 8, "bias": True, "exact": False})
     cases.append({"id": len(cases), "seed": 10, "op": "linear", "dtype": "float32", "act": "qint8", "wq": "qint8", "lead": [], "in": 16, "out": 8, "bias": False, "exact": False})
     res = []
